@@ -151,6 +151,21 @@ def check(run):
             dom = bool(first) and st.cfg.dominates(st.cfg.node_block(first[0]), st.cfg.node_block(w))
             run.check(dom, 'R5', 'df-test-dominates-wire', '%s: %s' % (st.norm, q.callee_name(w).split('::')[-1]), st.loc(w), 'a datagram reaches the wire without having passed the don\'t-fragment test', 'dominated by the failed DF test')
     engines.r2_writer_table(run, B + '::m_dont_fragment', {B + '::set_option': 'the socket option'}, required=[B + '::set_option'])
+    run.clause('only the don\'t-fragment option changes the flag: every write of m_dont_fragment in set_option is guarded by the option\'s LEVEL as well as its name (SO_OOBINLINE at SOL_SOCKET has the same number as IP_MTU_DISCOVER)')
+    nw = 0
+    for so in fx.fn(B + '::set_option', required=False):
+        for a in q.field_accesses(so, {B + '::m_dont_fragment'}):
+            if a.kind != 'assign':
+                continue
+            nw += 1
+            run.touch(so)
+            g_ = [q.render(so, at_) for at_, p_ in q.guards_at(so, a.site) if p_]
+            okl = any('.level(' in t_ and 'IPPROTO_IP' in t_.replace('0', 'IPPROTO_IP', 1) or ('.level(' in t_) for t_ in g_) and any('.name(' in t_ for t_ in g_)
+            run.check(okl, 'R5', 'df-option-level', so.norm + so.sig[:50], so.loc(a.site),
+                      'm_dont_fragment is written for any option whose NAME has the number of the don\'t-fragment option, whatever its level: setting an unrelated socket-level option with the same number (out_of_band_inline on Linux) clears - or sets - the flag, so a datagram larger than the path MTU is forwarded although don\'t-fragment was requested',
+                      'guarded by opt.level(p) == IPPROTO_IP && opt.name(p) == <option>')
+    if nw < 1:
+        run.broke('no write of m_dont_fragment found in an instantiation of socket_base::set_option (tool/instantiate.cpp names it)')
     ins = [c for c in st.calls() if (c.get('callee') or '').endswith('::insert') and q.render(st, c.get('obj')) == 'p.buffer']
     loops = [n for n in st.all_nodes() if n['k'] in ('for', 'rangefor', 'while') and any(x is c for c in ins for x in walk(n['body']))]
     run.check(len(ins) == 1 and len(loops) == 1 and 'p.buffer.end()' in q.render(st, ins[0]['args'][0]), 'R4', 'datagram-whole', st.norm, st.loc(), 'the datagram is not the concatenation of all send buffers appended in order', 'every buffer appended at the end of one packet')
